@@ -2,6 +2,7 @@
 import json
 import os
 import re
+import shutil
 import subprocess
 import threading
 
@@ -89,6 +90,56 @@ class Unit:
         self.gen = os.path.join(d, self.name + ".rs")
         mapf = os.path.join(d, self.name + ".map.json")
         r = subprocess.run([EXTRACT_BIN, self.template, repo, self.gen, mapf], stdout=subprocess.PIPE, stderr=subprocess.PIPE, text=True)
+        # Fallback (declared in the template with `//@fallback <key>`): when a DECLARED REWRITE of that function no longer applies
+        # (its source text changed), the function is not verifiable by Verus in this run.  Rather than losing the whole unit, its
+        # contract is assumed for this run (external_body, listed under trusted_base) and the function is left to the bounded Kani
+        # harnesses that run its compiled body -- as it was before the function was brought under Verus.
+        self.fallbacks = []
+        tries = 0
+        while r.returncode != 0 and tries < 3:
+            m = re.search(r"RULE-NO-LONGER-APPLIES replacew? `.*` in (\w+)\s*$", r.stderr.strip(), re.S)
+            tpl = open(self.template if not self.fallbacks else os.path.join(d, "tpl", self.name + ".vrs")).read()
+            if not m or not re.search(r"^//@fallback\s+(?:[\w,]*,)?%s(?:,|\s|$)" % re.escape(m.group(1)), tpl, re.M):
+                break
+            key = m.group(1)
+            tdir = os.path.join(d, "tpl")
+            os.makedirs(tdir, exist_ok=True)
+            for fn in os.listdir(CONTRACTS):
+                if fn.endswith(".vrs") and not os.path.exists(os.path.join(tdir, fn)):
+                    shutil.copy(os.path.join(CONTRACTS, fn), os.path.join(tdir, fn))
+            lines = tpl.split("\n")
+            out = []
+            for l in lines:
+                mm = re.match(r"^//@(replace\??|replacew|loop|closure)\s+(\w+)", l)
+                if mm and mm.group(2) == key:
+                    continue
+                out.append(l)
+            # the paste line of `key` (alias `| as key`, or the function name itself)
+            idx = None
+            for i, l in enumerate(out):
+                if l.strip().startswith("//@paste "):
+                    parts = [x.strip() for x in l.strip()[len("//@paste "):].split("|")]
+                    k = parts[2] if len(parts) > 2 else ""
+                    for extra in parts[3:]:
+                        if extra.startswith("as "):
+                            k = extra[3:].strip()
+                    if k == key:
+                        idx = i
+                        break
+            if idx is None:
+                break
+            out[idx] = "        unimplemented!()   // fallback: declared rewrite no longer applies; body left to the Kani harnesses in this run"
+            j = idx
+            while j >= 0 and not re.match(r"^\s*(pub(\([a-z]+\))?\s+)?(unsafe\s+)?fn\s+\w+", out[j]):
+                j -= 1
+            if j < 0:
+                break
+            out.insert(j, "    #[verifier::external_body]   // fallback for this run")
+            self.template = os.path.join(tdir, self.name + ".vrs")
+            open(self.template, "w").write("\n".join(out))
+            self.fallbacks.append(key)
+            tries += 1
+            r = subprocess.run([EXTRACT_BIN, self.template, repo, self.gen, mapf], stdout=subprocess.PIPE, stderr=subprocess.PIPE, text=True)
         if r.returncode != 0:
             raise Undecided("extraction of unit %s: %s" % (self.name, r.stderr.strip() or "exit %d" % r.returncode))
         self.map = json.load(open(mapf))
@@ -205,6 +256,8 @@ class Unit:
 
     def trusted(self):
         out = []
+        for k in getattr(self, "fallbacks", []):
+            out.append("FALLBACK in this run: the declared rewrite of `%s` no longer applies to the source; its contract is assumed here and its body is checked by the bounded Kani harnesses only [unit %s]" % (k, self.name))
         for f in self.fns:
             if f.external:
                 out.append("external_body (trusted contract): %s [unit %s]" % (f.qual, self.name))
